@@ -59,9 +59,9 @@ def _groups(tier, seed):
         # a 64-bit product with a CONSTANT operand (Zero / One / NegOne) does not finish in CBMC: the
         # real op sees the constant at compile time (and the multiplier is simplified away), the
         # contract function only during symbolic execution -- two structurally different circuits.
-        # Those instantiations are stated at 32 bits instead (same code, generic in the width).
+        # Those instantiations are stated at 16 bits instead (same code, generic in the width; 32 bits still needs 4-12 min each).
         def wide(t):
-            return "u32" if t[0] in ("mul", "mul2") and any(x in ("Zero", "One", "NegOne") for x in t[2:]) else "u64"
+            return "u16" if t[0] in ("mul", "mul2") and any(x in ("Zero", "One", "NegOne") for x in t[2:]) else "u64"
         binsel = [(t, "u8") for t in allbin] + [(t, wide(t)) for t in allbin] + [(t, w) for t in rnd.sample(allbin, 24) for w in ("u16", "u32")]
         tersel = [(t, "u8") for t in allter] + [(t, wide(t)) for t in rnd.sample(allter, 160)] + \
                  [(t, w) for t in rnd.sample(allter, 24) for w in ("u16", "u32")]
